@@ -21,6 +21,15 @@
 (* StickyGuard (a BaseException raised inside run leaves _map_guard set: the code resets   *)
 (* it in a finally clause), EarlyUnreg (restart_workers drops a worker's registry entry    *)
 (* before restarting it instead of after).                                                 *)
+(* ClosedOnlyWait (_close only waits for - never terminates - a worker whose end a run has  *)
+(* already recorded), StaleOverwrite (the count of in-flight answers of abandoned runs is   *)
+(* overwritten instead of accumulated).                                                     *)
+(* "runl": a run whose poison input makes the target leave a non-daemon thread behind and   *)
+(* then fail: the worker reports its end (its id goes to _closed) while its PROCESS lingers *)
+(* (modelled as stuck /\ key \in closedIds: it needs terminate to go away).  "runabort":    *)
+(* run() abandoned by an exception from the worker_callback at the first 'enqueued' event:  *)
+(* one input is in flight, its answer arrives later; `ans` = <<answers of abandoned runs     *)
+(* still to come, what the pool's _stale bookkeeping says>> for the first worker.           *)
 (* "runint": run() left through a BaseException raised while it executes (KeyboardInterrupt *)
 (* from the worker_callback); the with-block is then left: only close / terminate / exc    *)
 (* follow.  "restartg": restart_workers(timeout, force=False) - a worker stuck in an        *)
@@ -32,7 +41,7 @@
 (* at the very end of _close), so a later close()/terminate() does the clean-up again.     *)
 EXTENDS Naturals, Sequences, FiniteSets, TLC, PoolLifeProps
 
-CONSTANTS Fix, MaxOps, MaxW, Kinds, Plans, Free, ReuseKeys, NoReinit, NoRekey, EarlyFlag, StickyGuard, EarlyUnreg, Hist
+CONSTANTS Fix, MaxOps, MaxW, Kinds, Plans, Free, ReuseKeys, NoReinit, NoRekey, EarlyFlag, StickyGuard, EarlyUnreg, ClosedOnlyWait, StaleOverwrite, Hist
 
 VARIABLES plan,       \* scenario: [id, force ("none" | "false"), ops]; ops is followed when Free = FALSE
           ws,         \* workers ever created: sequence of [kind, os, stuck, key, owned]
@@ -42,8 +51,9 @@ VARIABLES plan,       \* scenario: [id, force ("none" | "false"), ops]; ops is f
           poolClosed, nextKey, nrun,
           restarted,  \* wids restarted since the previous run
           pc, todo, graceful,   \* _close in progress: workers still to clean up
+          ans,        \* <<old answers still in the first worker's pipe, pool._stale for it>>
           nops, steps, h
-vars == <<plan, ws, reg, closedIds, retries, poolClosed, nextKey, nrun, restarted, pc, todo, graceful, nops, steps, h>>
+vars == <<plan, ans, ws, reg, closedIds, retries, poolClosed, nextKey, nrun, restarted, pc, todo, graceful, nops, steps, h>>
 
 force == plan.force
 Go(name) == Free \/ (Len(h) < Len(plan.ops) /\ plan.ops[Len(h) + 1] = name)
@@ -57,7 +67,7 @@ AliveOwnedOf(wsx) == Cardinality({w \in 1..Len(wsx) : wsx[w].owned /\ IsProcX(ws
 LiveUnregOf(wsx, regx) == Cardinality({w \in 1..Len(wsx) : IsProcX(wsx, w) /\ wsx[w].os = "alive" /\ w \notin {kw[2] : kw \in regx}})
 AliveOwned == AliveOwnedOf(ws)
 
-Init == /\ plan \in Plans /\ ws = <<>> /\ reg = {} /\ closedIds = {} /\ retries = {} /\ poolClosed = FALSE
+Init == /\ plan \in Plans /\ ans = <<0, 0>> /\ ws = <<>> /\ reg = {} /\ closedIds = {} /\ retries = {} /\ poolClosed = FALSE
         /\ nextKey = 1 /\ nrun = 0 /\ restarted = {} /\ pc = "idle" /\ todo = {} /\ graceful = TRUE
         /\ nops = 0 /\ steps = <<>> /\ h = <<>>
 
@@ -86,48 +96,64 @@ AddLike(name, op, kind) ==
               regx == reg \cup {<<nextKey, Len(ws) + 1>>} IN
           /\ ws' = wsx /\ reg' = regx /\ nextKey' = nextKey + 1
           /\ Simple(name, op, "ok", wsx, regx)
-  /\ UNCHANGED <<plan, closedIds, retries, poolClosed, nrun, restarted, pc, todo, graceful>>
+  /\ UNCHANGED <<plan, ans, closedIds, retries, poolClosed, nrun, restarted, pc, todo, graceful>>
 AddOk(kind) == AddLike("add:" \o kind, "add", kind)
 Attach(kind) == AddLike("attach:" \o kind, "attach", kind)
 AddFail ==                                  \* the constructor raises: nothing exists, nothing is registered
   /\ Idle /\ Go("addfail")
   /\ Simple("addfail", "addfail", "raised", ws, reg)
-  /\ UNCHANGED <<plan, ws, reg, closedIds, retries, poolClosed, nextKey, nrun, restarted, pc, todo, graceful>>
+  /\ UNCHANGED <<plan, ans, ws, reg, closedIds, retries, poolClosed, nextKey, nrun, restarted, pc, todo, graceful>>
 AddDup(o) ==                                \* the new worker's id collides with registered worker o
   /\ Idle /\ Go("dup:" \o ToString(o)) /\ Len(ws) < MaxW /\ o \in RegW
   /\ LET wsx == Append(ws, [NewW(ws[o].kind, ws[o].key, FALSE) EXCEPT !.os = "dead"])      \* never created (closed pool) or worker.terminate() in the except branch
          regx == IF "dupguard" \in Fix \/ (poolClosed /\ "closedguard" \in Fix) THEN reg
                  ELSE {kw \in reg : kw[1] # ws[o].key}                                     \* pops *the id*: the original's entry
      IN ws' = wsx /\ reg' = regx /\ Simple("dup:" \o ToString(o), "dup", "raised", wsx, regx)
-  /\ UNCHANGED <<plan, closedIds, retries, poolClosed, nextKey, nrun, restarted, pc, todo, graceful>>
+  /\ UNCHANGED <<plan, ans, closedIds, retries, poolClosed, nextKey, nrun, restarted, pc, todo, graceful>>
 
 \* workers that run() would wait for forever: the harness never calls run then
 Blocking == ~poolClosed /\ \E w \in RegW : Alive(w) /\ ws[w].stuck /\ ws[w].key \notin closedIds    \* (a closed pool refuses run at once)
 Usable(w) == w \in RegW /\ ws[w].key \notin closedIds          \* run() looks at worker.id, the registry key only matters for results
-Run(poison) ==
-  /\ Idle /\ ~Blocking /\ Go(IF poison THEN "runp" ELSE "run")
-  /\ LET name == IF poison THEN "runp" ELSE "run" IN
-     IF poolClosed
+Run(name) ==                                \* name: "run" | "runp" (poison: the worker dies) | "runl" (poison: the worker's process lingers)
+  /\ Idle /\ ~Blocking /\ Go(name)
+  /\ IF poolClosed
      THEN /\ Done(name, Obs(name, "raised", "F", 0, 0, 0, ws, reg))
-          /\ UNCHANGED <<ws, closedIds, retries, nrun, restarted>>
+          /\ UNCHANGED <<ws, closedIds, retries, nrun, restarted, ans>>
      ELSE IF {w \in W : Usable(w)} = {}
      THEN /\ Done(name, Obs(name, "ok", "F", 0, 0, Cardinality({w \in restarted : w \in RegW /\ Alive(w)}), ws, reg))
-          /\ UNCHANGED <<ws, closedIds, retries, nrun, restarted>>     \* "no workers": returns None before touching the bookkeeping
-     ELSE LET got    == {w \in W : Usable(w) /\ Alive(w)}          \* workers that are handed inputs
+          /\ UNCHANGED <<ws, closedIds, retries, nrun, restarted, ans>>     \* "no workers": returns None before touching the bookkeeping
+     ELSE LET poison == name # "run"
+              got    == {w \in W : Usable(w) /\ Alive(w)}          \* workers that are handed inputs
               deadw  == {w \in W : Usable(w) /\ ~Alive(w)}         \* found dead at the first enqueue
               stale  == IF NoReinit THEN retries ELSE {}            \* run re-initialises _retries (pool.py:242)
               rnw    == Cardinality({w \in restarted : w \in RegW /\ Alive(w) /\ w \notin got})
               pz     == poison \/ stale # {}                       \* a stale poison input is retried first and kills like a fresh one
-              wsx    == IF pz THEN [w \in W |-> IF w \in got THEN [ws[w] EXCEPT !.os = "dead"] ELSE ws[w]] ELSE ws
+              wsx    == IF pz THEN [w \in W |-> IF w \notin got THEN ws[w]
+                                               ELSE IF name = "runl" /\ ws[w].kind # "thread" THEN [ws[w] EXCEPT !.stuck = TRUE]   \* reported its end, process lingers
+                                               ELSE [ws[w] EXCEPT !.os = "dead"]] ELSE ws
               misfiled == \E w \in got : ws[w].regkey # ws[w].key      \* results arrive under an id the registry does not know: assert fails
+              old    == IF got # {} /\ ans[1] > ans[2] THEN ans[1] - ans[2] ELSE 0   \* old answers the pool does not know about are taken for new ones
           IN /\ nrun' = nrun + 1
              /\ closedIds' = closedIds \cup {ws[w].key : w \in deadw} \cup (IF pz THEN {ws[w].key : w \in got} ELSE {})
              /\ ws' = wsx
              /\ retries' = IF pz /\ got # {} THEN stale \cup {nrun + 1} ELSE (IF got = {} THEN stale ELSE {})
              /\ restarted' = {}
-             /\ Done(name, [Obs(name, IF pz \/ got = {} \/ misfiled THEN "raised" ELSE "ok", "F", Cardinality(stale), 0, rnw, wsx, reg)
+             /\ ans' = IF got = {} THEN ans ELSE IF pz THEN <<0, 0>> ELSE <<old, 0>>     \* as many of its own answers stay behind
+             /\ Done(name, [Obs(name, IF pz \/ got = {} \/ misfiled THEN "raised" ELSE "ok", "F", Cardinality(stale) + old, 0, rnw, wsx, reg)
                              EXCEPT !.spoiled = IF misfiled /\ ~pz THEN 1 ELSE 0])
   /\ UNCHANGED <<plan, reg, poolClosed, nextKey, pc, todo, graceful>>
+
+RunAbort ==                                 \* run() abandoned by an exception raised by the worker_callback at the first 'enqueued' event
+  /\ Idle /\ ~Blocking /\ Go("runabort")
+  /\ IF poolClosed \/ {w \in W : Usable(w) /\ Alive(w)} = {}
+     THEN /\ Done("runabort", Obs("runabort", IF poolClosed \/ {w \in W : Usable(w)} # {} THEN "raised" ELSE "ok", "F", 0, 0, 0, ws, reg))
+          /\ closedIds' = IF poolClosed THEN closedIds ELSE closedIds \cup {ws[w].key : w \in {x \in W : Usable(x)}}
+          /\ UNCHANGED <<nrun, restarted, ans>>
+     ELSE /\ nrun' = nrun + 1 /\ restarted' = {}
+          /\ closedIds' = closedIds           \* abandoned at the very first enqueue: the other workers are not even looked at
+          /\ ans' = <<ans[1] + 1, IF StaleOverwrite THEN 1 ELSE ans[2] + 1>>     \* pool.py: `self._stale[wid] = self._stale.get(wid, 0) + len(workload)`
+          /\ Done("runabort", Obs("runabort", "raised", "F", 0, 0, 0, ws, reg))
+  /\ UNCHANGED <<plan, ws, reg, retries, poolClosed, nextKey, pc, todo, graceful>>
 
 RunInt ==                                   \* run() is left through a BaseException raised by the worker_callback at the first result
   /\ Idle /\ ~Blocking /\ Go("runint")
@@ -139,7 +165,7 @@ RunInt ==                                   \* run() is left through a BaseExcep
           /\ closedIds' = closedIds \cup {ws[w].key : w \in {x \in W : Usable(x) /\ ~Alive(x)}}
           /\ pc' = (IF StickyGuard THEN "idleGuard" ELSE "idleInt")       \* pool.py: `finally: self._map_guard = False`
           /\ Done("runint", Obs("runint", "raised", "F", 0, 0, 0, ws, reg))
-  /\ UNCHANGED <<plan, ws, reg, retries, poolClosed, nextKey, todo, graceful>>
+  /\ UNCHANGED <<plan, ans, ws, reg, retries, poolClosed, nextKey, todo, graceful>>
 
 \* restart_workers: every registered worker, in dict order; a stuck thread worker cannot be stopped -> RuntimeError, the rest is skipped
 RECURSIVE RestartAll(_, _, _, _, _)
@@ -159,8 +185,9 @@ RECURSIVE SortedKeys(_)
 SortedKeys(S) == IF S = {} THEN <<>> ELSE LET m == CHOOSE x \in S : \A y \in S : x <= y IN <<m>> \o SortedKeys(S \ {m})
 RestartOp(name, gentle) ==                  \* gentle: restart_workers(timeout, force=False)
   /\ Idle /\ Go(name)
-  /\ IF poolClosed THEN UNCHANGED <<ws, reg, nextKey, restarted>> /\ Simple(name, name, "raised", ws, reg)
+  /\ IF poolClosed THEN UNCHANGED <<ws, reg, nextKey, restarted, ans>> /\ Simple(name, name, "raised", ws, reg)
      ELSE LET r == RestartAll(SortedKeys(Keys), ws, reg, nextKey, gentle) IN
+          /\ ans' = <<0, 0>>                  \* restarted workers have new ids and new pipes
           /\ ws' = r.ws /\ reg' = r.reg /\ nextKey' = r.nk /\ restarted' = restarted \cup r.done
           /\ Simple(name, name, IF r.ok THEN "ok" ELSE "raised", r.ws, r.reg)
   /\ UNCHANGED <<plan, closedIds, retries, poolClosed, nrun, pc, todo, graceful>>
@@ -168,13 +195,13 @@ Restart == RestartOp("restart", FALSE) \/ RestartOp("restartg", TRUE)
 
 Kill(w) ==                                  \* external SIGKILL (no-op on a dead worker)
   /\ Idle /\ Go("kill:" \o ToString(w)) /\ w \in W /\ IsProc(w) /\ ws[w].owned /\ (Free => Alive(w))
-  /\ LET wsx == [ws EXCEPT ![w].os = "dead"] IN ws' = wsx /\ Simple("kill:" \o ToString(w), "kill", "ok", wsx, reg)
+  /\ LET wsx == [ws EXCEPT ![w].os = "dead"] IN ws' = wsx /\ ans' = <<0, 0>> /\ Simple("kill:" \o ToString(w), "kill", "ok", wsx, reg)
   /\ UNCHANGED <<plan, reg, closedIds, retries, poolClosed, nextKey, nrun, restarted, pc, todo, graceful>>
 Stick(w) ==                                 \* the user enqueues a never-ending input directly; a dead worker refuses it
   /\ Idle /\ Go("stick:" \o ToString(w)) /\ w \in RegW /\ (Free => (Alive(w) /\ ~ws[w].stuck /\ ~poolClosed))
   /\ LET wsx == IF Alive(w) THEN [ws EXCEPT ![w].stuck = TRUE] ELSE ws IN
      ws' = wsx /\ Simple("stick:" \o ToString(w), "stick", IF Alive(w) THEN "ok" ELSE "raised", wsx, reg)
-  /\ UNCHANGED <<plan, reg, closedIds, retries, poolClosed, nextKey, nrun, restarted, pc, todo, graceful>>
+  /\ UNCHANGED <<plan, ans, reg, closedIds, retries, poolClosed, nextKey, nrun, restarted, pc, todo, graceful>>
 
 \* close / terminate / exception in the with-body
 Closing == pc \in {"closing", "closingI"}
@@ -190,23 +217,24 @@ CloseBegin(name) ==
           /\ poolClosed' = EarlyFlag                      \* the code sets the flag at the END of _close (CloseEnd)
           /\ h' = IF Hist THEN Append(h, name) ELSE h
           /\ UNCHANGED <<nops, steps>>
-  /\ UNCHANGED <<plan, ws, reg, closedIds, retries, nextKey, nrun, restarted>>
+  /\ UNCHANGED <<plan, ans, ws, reg, closedIds, retries, nextKey, nrun, restarted>>
 CleanupWorker(w) ==                         \* one thread per worker: close -> wait(timeout) -> terminate(timeout, force)
   /\ Closing /\ w \in todo
   /\ todo' = todo \ {w}
   /\ ws' = [ws EXCEPT ![w].os = IF ~Alive(w) THEN "dead"
+                                ELSE IF ClosedOnlyWait /\ ws[w].key \in closedIds THEN (IF ws[w].stuck THEN "alive" ELSE "dead")   \* only waited for
                                 ELSE IF ~ws[w].stuck THEN "dead"                              \* closes down on its own
                                 ELSE IF ws[w].kind = "thread" THEN "alive"                      \* never forced
                                 ELSE IF force = "false" THEN "alive"                            \* no terminate / terminate(force=False)
                                 ELSE "dead"]                                                    \* terminate(timeout) with the kind's default force=True
-  /\ UNCHANGED <<plan, reg, closedIds, retries, poolClosed, nextKey, nrun, restarted, pc, graceful, nops, steps, h>>
+  /\ UNCHANGED <<plan, ans, reg, closedIds, retries, poolClosed, nextKey, nrun, restarted, pc, graceful, nops, steps, h>>
 CloseEnd ==
   /\ Closing /\ todo = {}
   /\ pc' = "idle" /\ poolClosed' = TRUE
   /\ nops' = nops + 1
   /\ LET o == Obs(IF graceful THEN "close" ELSE "terminate", "ok", "T", 0, 0, 0, ws, reg) IN
      steps' = IF Hist THEN Append(steps, o) ELSE <<o>>
-  /\ UNCHANGED <<plan, ws, reg, closedIds, retries, nextKey, nrun, restarted, todo, graceful, h>>
+  /\ UNCHANGED <<plan, ans, ws, reg, closedIds, retries, nextKey, nrun, restarted, todo, graceful, h>>
 \* an exception reaches the closing thread while it joins the clean-up threads (pool.py:198-206): the clean-up threads
 \* that are still running are aborted (SystemExit).  A worker whose thread had already close()d it ends on its own; one
 \* whose thread was aborted earlier (it had not been scheduled yet on a loaded machine) or that is slow to exit is still
@@ -225,11 +253,11 @@ Interrupt ==
        /\ nops' = nops + 1
        /\ LET o == Obs(IF graceful THEN "closeint" ELSE "termint", "raised", "T", 0, 0, 0, wsx, reg) IN
           steps' = IF Hist THEN Append(steps, o) ELSE <<o>>
-  /\ UNCHANGED <<plan, reg, closedIds, retries, poolClosed, nextKey, nrun, restarted, graceful, h>>
+  /\ UNCHANGED <<plan, ans, reg, closedIds, retries, poolClosed, nextKey, nrun, restarted, graceful, h>>
 
 Next == \/ \E k \in Kinds : AddOk(k) \/ Attach(k)
         \/ AddFail \/ (\E o \in W : AddDup(o) \/ Kill(o) \/ Stick(o))
-        \/ Run(FALSE) \/ Run(TRUE) \/ RunInt \/ Restart
+        \/ Run("run") \/ Run("runp") \/ Run("runl") \/ RunAbort \/ RunInt \/ Restart
         \/ CloseBegin("close") \/ CloseBegin("terminate") \/ CloseBegin("exc")
         \/ CloseBegin("closeint") \/ CloseBegin("termint")
         \/ (\E w \in W : CleanupWorker(w)) \/ CloseEnd \/ Interrupt
@@ -253,6 +281,8 @@ W_DupRaised == ~(steps # <<>> /\ steps[Len(steps)].op = "dup")
 W_RunAfterPoison == ~(nrun >= 2 /\ closedIds # {} /\ steps # <<>> /\ steps[Len(steps)].op = "run" /\ steps[Len(steps)].outcome = "ok")
 W_InterruptedStuck == ~(AtRest /\ ~poolClosed /\ steps # <<>> /\ steps[Len(steps)].outcome = "raised" /\ steps[Len(steps)].closing = "T"
                         /\ \E w \in RegW : Alive(w) /\ ws[w].stuck /\ IsProc(w))
+W_LingerAfterFailure == ~(AtRest /\ ~poolClosed /\ \E w \in RegW : Alive(w) /\ ws[w].stuck /\ ws[w].key \in closedIds /\ IsProc(w))
+W_TwoAbandonedRuns == ~(ans[1] >= 2)
 W_RunInterrupted == ~(pc = "idleInt" /\ AliveOwned > 0)
 W_GentleRestartFails == ~(AtRest /\ steps # <<>> /\ steps[Len(steps)].op = "restartg" /\ steps[Len(steps)].outcome = "raised" /\ ~poolClosed)
 W_ForceFalseSurvivor == ~(poolClosed /\ force = "false" /\ AliveOwned > 0)
